@@ -13,7 +13,7 @@ DEFAULT_NOTE = ("Trusted: Lean 4.33 kernel; axioms propext, Classical.choice, Qu
 LEVEL_NOTE = {}
 LEVEL_TEXT = {
     "C15": "Theorems C15_can / C15_lin / C15_cm / C15_bus: for a TECMP message laid out from the protocol table (28-byte header THdr, CAN/CAN-FD: arbitration id, length, data, crc; LIN: pid, length, data, checksum; capture-module status; bus status: 12 generic bytes + 12-byte entries) with arbitrary in-range header fields, decoding yields exactly the packets whose device id, timestamp, interface id (entry's id for bus status), arbitration id mod 2^29 / LIN id mod 64, data bytes and length, DLC code, checksum, decimal serial and version strings and counters equal the wire fields, one packet per complete bus-status entry; C15_unsupported (all 256 message types x all 65536 data types outside the supported set), C15_misfit_* (inner lengths or header length not fitting the buffer) yield no packet; C15_valid_payloads: every converted payload passes its class validator (so C03 applies). Tied to the code by table-built TECMP frames of every data length, all message types, consistent and inconsistent lengths.",
-    "C02": "Theorem decode_inbounds: a checked-read twin of the whole decoder (CMP walk, reassembly, every TECMP path; reads in the order and under exactly the guards of the C++) NEVER performs an out-of-bounds read and equals the plain model, for every decoder state and every buffer; termination is Lean's termination checker on the message walk (>= 16 bytes per step) and structural recursion of the TECMP entry loop; decode_count (12 * packets <= length), decode_payload_present, reassembled_length_inbounds (16-bit length wrap of > 65535 accumulated bytes stays inside), decode_state_ok (invariant over any history), decode_null / decode_short. PARTIAL clause: 'returned packets own their data after the buffer / decoder is released' is about object lifetime, which immutable model values cannot express; the harness observes it (input in an exact-size heap block freed - ASan-poisoned - before packets are read back; decoder destroyed before the last read). Tied to the code by every truncation / field corruption of well-formed frames, TECMP frames of all 256 message types, random strings and histories under ASan+UBSan.",
+    "C02": "Theorem decode_inbounds: a checked-read twin of the whole decoder (CMP walk, reassembly, every TECMP path; reads in the order and under exactly the guards of the C++) NEVER performs an out-of-bounds read and equals the plain model, for every decoder state and every buffer; validators_inbounds does the same for the six payload validators Packet::create runs on that path; termination is Lean's termination checker on the message walk (>= 16 bytes per step) and structural recursion of the TECMP entry loop; decode_count (12 * packets <= length), decode_payload_present, reassembled_length_inbounds (16-bit length wrap of > 65535 accumulated bytes stays inside), decode_state_ok (invariant over any history), decode_null / decode_short. PARTIAL clause: 'returned packets own their data after the buffer / decoder is released' is about object lifetime, which immutable model values cannot express; the harness observes it (input in an exact-size heap block freed - ASan-poisoned - before packets are read back; decoder destroyed before the last read). Tied to the code by every truncation / field corruption of well-formed frames, TECMP frames of all 256 message types, random strings and histories under ASan+UBSan.",
     "C04": "Theorems C04_wire / C04_pad / C04_truncate: for a frame laid out from the protocol table (WFrame/WMsg: independent of the encoder model) with any number of unsegmented messages, any in-range field values, ANY decoder state, decoding returns exactly one packet per message in wire order with device/stream id, version, message type, timestamp, interface or vendor id by message type, flags, payload type and bytes equal to the big-endian wire fields; zero padding changes nothing; a frame cut at ANY offset yields exactly the packets of the messages still completely contained (fitCount); C04_invalid_marked: a typed payload rejected by its validator (inner length misfit, CAN/CAN-FD/Ethernet bus-error flags) is returned type 0 / same length / no wire bytes. Tied to the code by table-built frames with consistent and inconsistent payloads, every truncation, padding, prior history.",
     "C16": "Refinement: theorem abs_step (one concrete step of the vector-based tracker = one step of the specification map device id -> (latest capture-module packet, interface id -> latest packet)) under the invariant Inv (unique ids), inv_step, and status_refines for EVERY operation sequence from the empty tracker; entries_are_keys (exactly one entry per key), index_spec / if_index_spec (lookups return the position of the matching entry or the count), update_other_kind / update_unknown_device (identities), if_key_is_payload_id. Swap-with-last removal is modelled literally. Tied to the code by exhaustive and random operation histories with a dump and index probes after every operation; the compared view is the sorted map, vector order is checked against the implementation's own dump.",
     "C19": "PARTIAL by nature. Proved: Conc.interleave_independent / C19_interleaving - for instances whose step functions read and write their own state only (Encoder, Decoder, Status models; the TECMP path is a pure function), EVERY interleaving of the calls yields for each instance exactly the outputs and final state of its solo run; the premise 'no shared mutable state' is the regenerated obligation no_shared_state: `nm` on the objects built from /repo on this run finds no symbol in a writable section beyond the allow-list, checked by `decide`. Not provable in any model: real schedules, the C++ memory model, races inside libstdc++/malloc - observed with a ThreadSanitizer build running the mixed workload on 4/16 threads with per-case output comparison.",
@@ -30,8 +30,8 @@ LEVEL_TEXT = {
     "C06": "Theorems fault_safe / C06_no_corruption(_interleaved): whatever sub-multiset and order of the sent frames arrives (drop, duplicate, reorder are one quantifier) and whichever segment copies carry a wrong version/type (side condition: different segments of one message are not corrupted to the same wrong pair - without it the statement is false of any decoder), every delivered packet is one that was sent; fault_recovery / fault_recovery_unseg: from ANY state, a message arriving complete, in order, uninterrupted is delivered. Invariant proof over the arrived list, stream length < 65536. END TO END on bytes (C06b.C06_bytes): for EVERY encoder state, batch of well-formed packets and configuration, ANY list of copies of the encoder model's serialised frames (any subset, order, multiplicity; copies of segment frames with any version byte 1..255 and any type byte), decoded from the empty decoder model, yields only packets of the batch - the abstract sent stream is constructed from the encoder's real output. Tied to the code by fault scripts over real encoder output fed to the real decoder.",
     "C17": "Theorems localStep_refines / C17_pending_iff_open / C17_pending_bytes / C17_idle_empty / C17_support / C17_release / C17_last_releases: the pending table refines a buffer-free specification automaton (a message is in progress after a first segment and while matching intermediary segments arrive alone in their frame); pending bytes <= 16 + segment bytes of the open message; no open message => empty table; TECMP/short/null buffers leave it untouched. All histories, by induction; C17_bytes restates it for histories of raw buffers (decodeAll). Tied to the code by reading the real decoder's private table (-fno-access-control, no source hook) after every frame of exhaustive and random histories.",
     "C18": "Theorems run_filter / C18_isolation / decode_foreign_state / decode_other_endpoint / delivered_tagged: for every history of arbitrary buffers the packets and the state of endpoint e equal those of the history projected to e; TECMP, short and null buffers change no state. Induction over the history, arbitrary parsed frames. Tied to the code by running histories and their per-endpoint projections on separate real decoders.",
-    "C09": "Theorems C09_encode / C09_config / C09_headers: for every history of setDevice/setStream/restart/encode calls on the encoder model every frame carries the configured ids, the message type of its messages, the batch version, and counters consecutive mod 65536 restarting at 1 after a reset; the reported counter is the last frame's. Proved by induction over the history with a fold invariant, no bound on history or batch. The model is tied to the code by the correspondence stream (exhaustive short histories, random long ones, a >65536-frame history).",
-    "C10": "Theorem C10_encode_any_state: encode reads only (device id, stream id, counter) of the encoder object, so the frames after any history equal a fresh encoder's frames shifted by the counter (simulation proof, all states, all batches). Tied to the code by encoding the same batch on a used and a fresh real encoder.",
+    "C09": "Theorems C09_encode / C09_config / C09_headers: for every history of setDevice/setStream/restart/encode calls on the encoder model every frame carries the configured ids, the message type of its messages, the batch version, and counters consecutive mod 65536 restarting at 1 after a reset; the reported counter is the last frame's. Proved by induction over the history with a fold invariant, no bound on history or batch; C09_bytes restates it for the serialised bytes (device id at bytes 2..3, stream id at byte 5, reserved byte 0, counter at bytes 6..7, version at byte 0). The model is tied to the code by the correspondence stream (exhaustive short histories, random long ones, a >65536-frame history).",
+    "C10": "Theorem C10_encode_any_state: encode reads only (device id, stream id, counter) of the encoder object, so the frames after any history equal a fresh encoder's frames shifted by the counter (simulation proof, all states, all batches); C10_bytes: on the returned byte vectors the only difference is bytes 6..7. Tied to the code by encoding the same batch on a used and a fresh real encoder.",
 }
 
 
@@ -67,16 +67,17 @@ def hdr_view(case, lines):
     return out
 
 
-reg(Spec("C09", "Frame headers carry consecutive counters and the encoder's identity", ["AsamCmp.Props.C09"],
-         ["AsamCmp.C09_header_bytes", "AsamCmp.C09_encode", "AsamCmp.C09_config", "AsamCmp.C09_headers"], ["AsamCmp.Props.C09"], gen_enc.gen_c09, view=hdr_view, batch_predicate=gen_enc.batch_pred_c09,
+reg(Spec("C09", "Frame headers carry consecutive counters and the encoder's identity", ["AsamCmp.Props.C09", "AsamCmp.Props.C09b"],
+         ["AsamCmp.C09_header_bytes", "AsamCmp.C09_encode", "AsamCmp.C09_config", "AsamCmp.C09_headers", "AsamCmp.C09b.header_fields", "AsamCmp.C09b.C09_bytes"],
+         ["AsamCmp.Props.C09", "AsamCmp.Props.C09b"], gen_enc.gen_c09, view=hdr_view, batch_predicate=gen_enc.batch_pred_c09,
          rule="exhaustive op sequences over a 7-letter alphabet, random 30-op histories, one history of > 65536 frames; view = first 8 bytes of every frame + reported counter"))
-reg(Spec("C10", "Encoder output does not depend on earlier encode calls", ["AsamCmp.Props.C10"],
-         ["AsamCmp.C10_encode_any_state", "AsamCmp.C10_history_independent", "AsamCmp.C10_same_shape"], ["AsamCmp.Props.C10"], gen_enc.gen_c10, view=last_lines(6), predicate=gen_enc.pred_c10,
+reg(Spec("C10", "Encoder output does not depend on earlier encode calls", ["AsamCmp.Props.C10", "AsamCmp.Props.C09b"],
+         ["AsamCmp.C10_encode_any_state", "AsamCmp.C10_history_independent", "AsamCmp.C10_same_shape", "AsamCmp.C09b.C10_bytes"], ["AsamCmp.Props.C10", "AsamCmp.Props.C09b"], gen_enc.gen_c10, view=last_lines(6), predicate=gen_enc.pred_c10,
          rule="history of 1..6 earlier encode calls, then the same batch on the used and on a fresh encoder"))
 
 
-reg(Spec("C02", "Decoding arbitrary bytes is memory-safe and terminates", ["AsamCmp.Props.C02"],
-         ["AsamCmp.C02.decode_inbounds", "AsamCmp.C02.reassembled_length_inbounds", "AsamCmp.C02.walk_count", "AsamCmp.C02.decode_count", "AsamCmp.C02.decode_payload_present", "AsamCmp.C02.decode_state_ok", "AsamCmp.C02.decode_null", "AsamCmp.C02.decode_short"], ["AsamCmp.Props.C02"], gen_dec.gen_c02, view=gen_dec.structure_view,
+reg(Spec("C02", "Decoding arbitrary bytes is memory-safe and terminates", ["AsamCmp.Props.C02", "AsamCmp.Props.C02b"],
+         ["AsamCmp.C02b.validators_inbounds", "AsamCmp.C02.decode_inbounds", "AsamCmp.C02.reassembled_length_inbounds", "AsamCmp.C02.walk_count", "AsamCmp.C02.decode_count", "AsamCmp.C02.decode_payload_present", "AsamCmp.C02.decode_state_ok", "AsamCmp.C02.decode_null", "AsamCmp.C02.decode_short"], ["AsamCmp.Props.C02", "AsamCmp.Props.C02b"], gen_dec.gen_c02, view=gen_dec.structure_view,
          predicate=gen_dec.pred_c02,
          partial="'returned packets own their data after the buffer / decoder is released' is about object lifetime; observed by the harness (exact-size heap input freed before packets are read back, decoder destroyed before the last read, all under ASan), not proved",
          rule="well-formed frames of every kind truncated at every offset and with every length/type/flag field corrupted, TECMP frames of all message types, random byte strings, histories; inputs live in exact-size heap blocks freed before the packets are read back, the decoder is destroyed before the last read; view = packet count, payload length and validity, sanitizer verdict"))
@@ -119,8 +120,8 @@ reg(Spec("C03", "Payloads accepted by validation expose only in-bounds data", ["
          rule="per class: every buffer length 0..header+8 x {zeros, ones, random}; every inner length field x {0, fits-1, fits, fits+1, max}; every truncation of well-formed status payloads; random content; a 65.6 KiB interface payload with count 0xFFFF; message-level buffers; accessors of decoded and TECMP-converted packets; views are touched byte by byte under ASan"))
 
 
-reg(Spec("C13", "Payload builders store data faithfully and produce self-valid payloads", ["AsamCmp.Props.C13", "AsamCmp.Props.GenChecks"],
-         ["AsamCmp.C13.can_setData", "AsamCmp.C13.can_setData_valid", "AsamCmp.C13.can_setData_canonical", "AsamCmp.C13.dlc_iso", "AsamCmp.C13.lin_setData", "AsamCmp.C13.lin_setData_canonical", "AsamCmp.C13.eth_setData", "AsamCmp.C13.eth_setData_canonical", "AsamCmp.C13.analog_setData", "AsamCmp.C13.analog_setData_canonical", "AsamCmp.C13.cmString_spec", "AsamCmp.C13.cm_setData", "AsamCmp.C13.cm_setData_canonical", "AsamCmp.C13.if_setData", "AsamCmp.C13.if_setData_canonical", "AsamCmp.C13.defaults_valid", "AsamCmp.GenChecks.dlc_ok"], ["AsamCmp.Props.C13", "AsamCmp.Props.GenChecks"], gen_bld.gen_c13, predicate=gen_bld.pred_c13, selfcheck=gen_bld.selfcheck_bld,
+reg(Spec("C13", "Payload builders store data faithfully and produce self-valid payloads", ["AsamCmp.Props.C13", "AsamCmp.Props.GenChecks", "AsamCmp.Props.C02b"],
+         ["AsamCmp.C13.can_setData", "AsamCmp.C13.can_setData_valid", "AsamCmp.C13.can_setData_canonical", "AsamCmp.C13.dlc_iso", "AsamCmp.C13.lin_setData", "AsamCmp.C13.lin_setData_canonical", "AsamCmp.C13.eth_setData", "AsamCmp.C13.eth_setData_canonical", "AsamCmp.C13.analog_setData", "AsamCmp.C13.analog_setData_canonical", "AsamCmp.C13.cmString_spec", "AsamCmp.C13.cm_setData", "AsamCmp.C13.cm_setData_canonical", "AsamCmp.C13.if_setData", "AsamCmp.C13.if_setData_canonical", "AsamCmp.C13.defaults_valid", "AsamCmp.GenChecks.dlc_ok", "AsamCmp.C02b.builders_preserve_fields", "AsamCmp.C02b.getField_congr"], ["AsamCmp.Props.C13", "AsamCmp.Props.GenChecks", "AsamCmp.Props.C02b"], gen_bld.gen_c13, predicate=gen_bld.pred_c13, selfcheck=gen_bld.selfcheck_bld,
          rule="every data length 0..255 (CAN/CAN-FD/LIN), {0,1,2,63,64,65,1499,65529}+random (Ethernet/analog), strings 0..40/255/256/1000, id lists of every parity, on default objects and on objects that held longer/shorter/different data (chains of 2..4 setData calls); predicate: raw bytes equal the protocol-table layout of the last call's data with the earlier header fields preserved, validator and decoder accept"))
 
 
